@@ -837,6 +837,8 @@ def run(check):
                                                                        'fresh': probe['fresh']}))
 
     # 4. coverage
+    from . import c09_shapes, flowgraph
+    state['evaluations'] += c09_shapes.run(check, flowgraph.load_supp())
     check.cov['evaluations'] = state['evaluations']
     check.cov['distinct_nontrivial'] = len(state['indirect'])
     check.cov['rule'] = (
@@ -896,6 +898,10 @@ def replay(path):
         for n, item in enumerate(data.get('failing_inputs', [])):
             rp = item.get('replay')
             if not isinstance(rp, dict):
+                continue
+            if rp.get('kind') == 'shapes':
+                from . import c09_shapes, flowgraph
+                still += 1 if c09_shapes.replay_item(flowgraph.load_supp(), rp) else 0
                 continue
             if rp.get('class') == 'norm_cache' and 'disk' not in rp:
                 pr = norm_cache_probe(real)
